@@ -2,6 +2,7 @@ import AasVerif.Lemmas.SortedEmit
 import AasVerif.Lemmas.OutDir
 import AasVerif.Gen.SortSites
 import AasVerif.Gen.WriteSites
+import AasVerif.Gen.StrSites
 import AasVerif.Props.C05
 import AasVerif.Props.C25
 /-!
@@ -298,6 +299,27 @@ theorem write_sites_unconditional :
         ∧ s.pathPassedTo = ["run.write_error_report"] := by decide
 
 end OutDir
+
+
+/-! ## "Regardless of process": what the type-inference errors print as a type -/
+
+/-- The expressions a `__str__` of a type annotation (`intermediate/type_inference.py`) may interpolate: names and
+values (strings), the class name, and the nested type annotations (`items` of a list/set, `value` of an optional —
+rendered by these same methods).  None of them is an object of the intermediate representation, whose `repr` is
+`<intermediate.Cls name at 0x…>` and differs from process to process. -/
+def addressFreeInterpolations : List String :=
+  ["self.a_type.value", "self.our_type.name", "self.func.name", "self.method.name", "self.enumeration.name",
+   "self.__class__.__name__", "self.items", "self.value"]
+
+/-- *Table*: every concrete `__str__` of a type annotation interpolates address-free expressions only, so "the type"
+printed in a type-inference error (of any SDK generator) is the same text in every process.  Interpolating the
+function, the method, our type or the enumeration itself (the pinned tree did the latter, fixed in `07700284`)
+breaks this theorem; the ill-typed invariant matrix of the oracle then delivers the failing input. -/
+theorem type_str_address_free :
+    ∀ s ∈ Gen.StrSites.typeStrSites, ∀ e ∈ s.2, e ∈ addressFreeInterpolations := by decide
+
+/-- Non-vacuity: the scan finds the nine concrete type annotations. -/
+example : Gen.StrSites.typeStrSites.length = 9 := by decide
 
 
 /-! ## Order-independence of the passes proved for other properties (re-exported) -/
